@@ -239,6 +239,10 @@ fn main() {
     for h in handles {
         total.merge(&h.join().expect("generator thread"));
     }
+    if let Some(what) = fzharness::world::UNACCOUNTED.lock().unwrap().clone() {
+        eprintln!("fzgen: UNMODELLED STATE: {}", what);
+        std::process::exit(3);
+    }
     let mut f = File::create(format!("{}/gen_stats.json", out)).unwrap();
     writeln!(f, "{}", total.to_json()).unwrap();
     eprintln!("fzgen: {} histories, {} lines ({} steps, {} probes, {} faulted, {} queries, {} pure)", total.histories, total.lines, total.steps, total.probes, total.stepf, total.queries, total.pure);
